@@ -2,7 +2,13 @@
 
 A configuration is a list of entries; an entry is a list of token texts.  The schema below is written from the
 manual pages (robsd.conf.5, robsd-cross.conf.5, robsd-ports.conf.5, robsd-regress.conf.5, canvas.conf.5,
-robsd-config.8), not from the C tables.  `@R@` stands for the scratch root and is substituted when a case runs."""
+robsd-config.8), not from the C tables.  `@R@` stands for the scratch root and is substituted when a case runs.
+
+This is a GENERATOR schema, not the specification (that is Conf/DocSpec.v, compared with the C tables in Coq).  Where the pages
+and the code differ (Conf/DocExceptions.v) the schema deliberately produces BOTH readings: chroot and ports-dir are generated as
+strings (mostly not existing directories: class documented-directory-not-checked), regress-env is generated several times
+(regress-env-repeatable-undocumented), the templates reference the undocumented READONLY names and the documented names that
+have no row (regress-obj, regress-*-quiet/-root, target)."""
 
 R = b'@R@'
 
